@@ -598,6 +598,8 @@ static void emit_state (DBusMessage *m, int ret)
   canon_msg (m, &out);
 }
 
+static int apply_edit (DBusMessage *m, const char *a);
+
 static void cmd_edit (int argc, char **argv)
 {
   size_t n; unsigned char *buf; DBusMessageLoader *l; DBusMessage *m; int i;
@@ -611,20 +613,7 @@ static void cmd_edit (int argc, char **argv)
   emit_state (m, 1);
   for (i = 2; i < argc; i++)
     {
-      char *a = argv[i]; int ret = -1; char *v = NULL; int del;
-      size_t kl = strcspn (a, "=-");
-      del = a[kl] == '-';
-      if (!del && a[kl] == '=' && strncmp (a, "rserial", 7) != 0) v = field_dup (a);
-      if (!strncmp (a, "strip", 5)) ret = _dbus_message_remove_unknown_fields (m);
-      else if (!strncmp (a, "rserial=", 8)) ret = dbus_message_set_reply_serial (m, (dbus_uint32_t) strtoul (a + 8, NULL, 10));
-      else if (!strncmp (a, "path", 4)) ret = dbus_message_set_path (m, del ? NULL : v);
-      else if (!strncmp (a, "iface", 5)) ret = dbus_message_set_interface (m, del ? NULL : v);
-      else if (!strncmp (a, "member", 6)) ret = dbus_message_set_member (m, del ? NULL : v);
-      else if (!strncmp (a, "errname", 7)) ret = dbus_message_set_error_name (m, del ? NULL : v);
-      else if (!strncmp (a, "dest", 4)) ret = dbus_message_set_destination (m, del ? NULL : v);
-      else if (!strncmp (a, "sender", 6)) ret = dbus_message_set_sender (m, del ? NULL : v);
-      else if (!strncmp (a, "cinst", 5)) ret = dbus_message_set_container_instance (m, del ? NULL : v);
-      free (v);
+      char *a = argv[i]; int ret = apply_edit (m, a);
       emit_state (m, ret);
     }
   dbus_message_unref (m);
@@ -779,6 +768,15 @@ static int apply_edit (DBusMessage *m, const char *a)
   size_t kl = strcspn (a, "=-");
   del = a[kl] == '-';
   if (!del && a[kl] == '=' && strncmp (a, "rserial", 7) != 0) v = field_dup (a);
+  if (!strncmp (a, "flag", 4) && (a[4] == '+' || a[4] == '-') && a[5])
+    {
+      /* flag+n / flag-n (no_reply), flag+a / flag-a (auto_start), flag+i / flag-i (allow_interactive_authorization) */
+      dbus_bool_t on = a[4] == '+';
+      if (a[5] == 'n') dbus_message_set_no_reply (m, on);
+      else if (a[5] == 'a') dbus_message_set_auto_start (m, on);
+      else dbus_message_set_allow_interactive_authorization (m, on);
+      return 1;
+    }
   if (!strncmp (a, "strip", 5)) ret = _dbus_message_remove_unknown_fields (m);
   else if (!strncmp (a, "rserial=", 8)) ret = dbus_message_set_reply_serial (m, (dbus_uint32_t) strtoul (a + 8, NULL, 10));
   else if (!strncmp (a, "path", 4)) ret = dbus_message_set_path (m, del ? NULL : v);
